@@ -30,6 +30,22 @@ NOTES = {
     "C14-m3": "missed by the first version of the check; caught after -setkeys is also written with blanks around the keys, as the usage text allows",
     "C14-m4": "missed by the first version of the check; caught after 10% of the documents carry a 70 KB string (stdin legs) ",
     "C16-m4": "missed by the first version of the check (Json()/Yaml() were never called with a reading option); caught after the SET / MULTISET render round trips and repeated array elements were added",
+    "C01-m5": "missed by the first version of the check (arrays of at most 700 elements); caught after pairs of ~1050-element arrays with a run of equal elements that grows were added",
+    "C01-m6": "missed by the first version of the check; caught after the 're-split two neighbouring key names' edit ({\"ab\":x,\"c\":y} -> {\"a\":x,\"bc\":y}) was added",
+    "C02-m5": "first seen as a dead process (the shared nodes make Patch build a cyclic document and the stack overflows), which the driver used to report as inconclusive; caught since the driver re-runs a shard whose process died with case tracing and confirms the last case in a fresh process",
+    "C03-m5": "missed by the first version of the check (sub-diffs were only applied in memory and no line was longer than 70 KB); caught after half of the cases go through Render + ReadDiffString and a rare case with 1.1 MB context elements was added",
+    "C03-m6": "missed by the first version of the check; caught after the 'hash twin' perturbation (an element named by the hunk replaced by the number whose bytes equal its fixed hash input) was added",
+    "C06-m5": "not caught by C06 (its statement has no Precision configuration; the C06 check passes Precision only on whole-number documents). It is the regression of repair D25 and is caught by the C14 precision leg (exit 1, 3 violations)",
+    "C06-m6": "missed by the first version of the check; caught after arrays with one long run (28-70 equal neighbours) whose length changes or which is interrupted were added",
+    "C07-m5": "missed by the first version of the check (it is a minimality defect: one hunk removes and re-adds hundreds of unchanged elements, which C06 catches); C07 now also requires that the removed and the added run of a list hunk have no common subsequence (a value on both sides is an unchanged element restated), and generates 520-700 element arrays with two edits far apart",
+    "C09-m5": "missed by the first version of the check; caught after strings that contain a literal backslash-u003c / u003e / u0026 were added to the payload pool",
+    "C10-m5": "missed by the first version of the check; caught after the 'parent-path' variation (a context-free hunk re-addressed to the parent of the hunk before it) was added",
+    "C10-m6": "NOT counted: both demonstrations use context tests that are not adjacent to the edit position (test /3 with an add at /1; tests with an append), which is outside the subset the statement quantifies over; the unchanged tree rejects these documents",
+    "C13-m5": "NOT counted as a violation of C13: it only shows when the receiver of Patch is used again after the call (or after a failed call); Patch consumes its receiver on the unchanged tree too (see C08-m4)",
+    "C14-m5": "the delivered patch no longer applied after repair D34 touched the same lines; it was re-made by hand on the current tree (output file created before the inputs are read). Missed by the first version of the check, caught after 'jd -p -o DOC DIFF DOC' (patch in place) was added",
+    "C15-m5": "missed by the first version of the check; caught after the fresh-process leg got 35% documents with a 5-70 KB string and more set / multiset option sets",
+    "C16-m5": "the delivered patch no longer applied after repair D36 rewrote renderYaml; re-made by hand on the current tree. Caught after strings holding literal \\U0001F600 text were added to the pool",
+    "C16-m6": "re-made by hand after D36 like C16-m5. Caught after strings ending in '- 1e+06' / 'k: 3e+21' and the YAML text of another document as a string value were added",
     "C14-m2": "missed by the first version of the check (stdin was always a pipe); caught after a run with stdin redirected from a regular file was added",
 }
 
